@@ -1,3 +1,4 @@
 import Spec.Basic
 import Spec.Num
 import Spec.Ops
+import Spec.Tables
